@@ -237,6 +237,8 @@ def siteTable : List (String × String × String × String × Nat × LoopClass) 
   ("range", "d2ir/compile.go", "globContext.copyApplied", "from.appliedFields", 490804488, .mapCopy),
   -- { if parent != nil && parent.Name.ScalarString() == keywordHolder && parent.Name.IsUnquoted() && len
   ("range", "d2ir/d2ir.go", "Map.DeleteField", "d2ast.ReservedKeywordHolders", 539688930, .singleEntry),
+  -- { if parent != nil && … && parent.Map() != nil && len(parent.Map().Fields) == 0 { … } }  (after ce5d5947e)
+  ("range", "d2ir/d2ir.go", "Map.DeleteField", "d2ast.ReservedKeywordHolders", 1065775602, .singleEntry),
   -- { if parent != nil && parent.Name.ScalarString() == keywordHolder && parent.Name.IsUnquoted() && len
   ("range", "d2ir/d2ir.go", "Map.DeleteField", "d2ast.ReservedKeywordHolders", 1073460064, .singleEntry),
   -- { prevMarginBottom[o] = math.Max(prevMarginBottom[o], margin.Bottom) }
